@@ -6,14 +6,16 @@ From DS Require Import Model.Value Model.VM Model.CodeWf Proofs.VMSafety.
 Import ListNotations.
 
 (* For byte-code whose operands have the shapes the VM asserts and whose relative jumps never go below
-   index 0 (code_wf), whose detail spans lie inside the source text (spans_wf) — both checked on every program
-   the real parser emitted in the corpus — and for a function table with the same properties, NO execution
+   index 0 (code_wf) — checked on every program the real parser emitted in the corpus — and for a function
+   table whose bodies have the same property (ftab_wf), NO execution
    reaches a Go panic site: for every fuel, every value on the stack, every variable state, every generator
    state, every configuration. The single exception is a model-only site (push.range with an operand outside
    int64, which a Go int cannot hold: see C01_run_no_panic_refuted_big_int). `state_good` excludes a bare
-   `Computed.compute` native method without Self, a value no VM instruction can create. *)
+   `Computed.compute` native method without Self, a value no VM instruction can create.
+   There is no hypothesis on the mark.detail spans any more: the one site that sliced the source text with a
+   span (push.def_expr) skips a span outside the text (non_wf_span_no_longer_panics). *)
 Theorem C01_run_no_panic_partial :
-  forall E c src, code_wf c = true -> spans_wf (Some src) c = true -> ftab_wf (e_ftab E) = true ->
+  forall E c src, code_wf c = true -> ftab_wf (e_ftab E) = true ->
   forall fuel st, state_good st -> match run fuel E c src st with OPanic s => s = range_msg | _ => True end.
 Proof. exact Proofs.VMSafety.C01_run_no_panic_partial. Qed.
 
@@ -37,4 +39,4 @@ Print Assumptions C01_run_keeps_state_good.
 Print Assumptions C01_initial_state_good.
 (* the unrestricted statement is false of the model: witnesses C01_run_no_panic_refuted_big_int and
    C01_run_no_panic_refuted_bare_method in Proofs/VMSafety.v; the hypotheses matter: non_wf_jump_panics,
-   non_wf_operand_panics, non_wf_ldfs_panics, non_wf_span_panics (programs outside code_wf really panic). *)
+   non_wf_operand_panics, non_wf_ldfs_panics (programs outside code_wf really panic). *)
